@@ -226,6 +226,7 @@ let string_of_z (z : z) = match z with
   | Z0 -> "0" | Zpos p -> string_of_pos_acc p | Zneg p -> "-" ^ string_of_pos_acc p
 
 let timefmt_oracle : (string, string) Hashtbl.t = Hashtbl.create 64
+let ffmt_oracle : (string, string) Hashtbl.t = Hashtbl.create 64
 let num_oracle : (string, string option) Hashtbl.t = Hashtbl.create 256
 let float_oracle : (string, string option) Hashtbl.t = Hashtbl.create 256
 let time_oracle : (string, string option) Hashtbl.t = Hashtbl.create 256
@@ -234,6 +235,7 @@ let o_line args =
   (match args with
    | ["float"; bits; lex; r] -> Hashtbl.replace float_oracle (bits ^ ":" ^ lex) (if r = "ERR" then None else Some (unhex r))
    | ["time"; lex; r] -> Hashtbl.replace time_oracle lex (if r = "ERR" then None else Some (unhex r))
+   | ["ffmt"; bits; repr; text] -> Hashtbl.replace ffmt_oracle (bits ^ ":" ^ unhex repr) (unhex text)
    | ["timefmt"; repr; text] -> Hashtbl.replace timefmt_oracle (unhex repr) (unhex text)
    | ["num"; bits; lit; r] -> Hashtbl.replace num_oracle (bits ^ ":" ^ unhex lit) (if r = "ERR" then None else Some (unhex r))
    | _ -> ());
@@ -598,10 +600,10 @@ let e_line args =
   | [pkg; name; v] ->
     let s = Hashtbl.find jtypes (pkg ^ " " ^ name) in
     let gv = parse_gval s v in
-    let r = enc fmt_float_o fmt_time_o s gv in
+    let r = json_enc fmt_float_o fmt_time_o s gv in
     (match r with
      | Ok j ->
-       let back = (match dec parse_num_o parse_time_oracle s j with
+       let back = (match json_dec parse_num_o parse_time_oracle s j with
            | Ok v' -> dump_gval s v'
            | Err k -> "Err(" ^ hex_of_str k ^ ")"
            | ErrOther -> "ErrOther") in
@@ -615,9 +617,9 @@ let u_line args =
     let s = Hashtbl.find jtypes (pkg ^ " " ^ name) in
     let j = parse_json_text (unhex h) in
     let valid = validates parse_num_o parse_time_oracle s j in
-    (match dec parse_num_o parse_time_oracle s j with
+    (match json_dec parse_num_o parse_time_oracle s j with
      | Ok v ->
-       "model=" ^ dump_gval s v ^ " reenc=" ^ res_json_string (enc fmt_float_o fmt_time_o s v) ^ " valid=" ^ (if valid then "1" else "0")
+       "model=" ^ dump_gval s v ^ " reenc=" ^ res_json_string (json_enc fmt_float_o fmt_time_o s v) ^ " valid=" ^ (if valid then "1" else "0")
      | Err k -> "model=Err(" ^ hex_of_str k ^ ") valid=" ^ (if valid then "1" else "0")
      | ErrOther -> "model=ErrOther valid=" ^ (if valid then "1" else "0"))
   | _ -> fail_line "U args"
@@ -728,6 +730,104 @@ let c15 args =
      | Panic site -> "model=PANIC site=" ^ hex (coq_string_to_ocaml site) ^ " inv=" ^ inv)
   | _ -> fail_line "C15 args"
 
+(* ---------- C09: K (client call) lines ---------- *)
+let fmt_float_client (bits : z) (repr : ascii list) : ascii list =
+  let key = string_of_z bits ^ ":" ^ string_of_str repr in
+  match Hashtbl.find_opt ffmt_oracle key with
+  | Some t -> str_of_string t
+  | None -> failwith ("missing ffmt oracle " ^ key)
+
+(* a pval in Dump syntax, directed by the parameter schema *)
+let parse_pval_text (sc0 : sch) (t : string) (i : int ref) : pval =
+  let n = String.length t in
+  let has p = !i + String.length p <= n && String.sub t !i (String.length p) = p in
+  let eat p = if has p then (i := !i + String.length p; true) else false in
+  let until stops = let st = !i in while !i < n && not (String.contains stops t.[!i]) do incr i done; String.sub t st (!i - st) in
+  let rec go (sc : sch) : pval =
+    match sc with
+    | SPrim PStr -> ignore (eat "S("); let h = until ")" in ignore (eat ")"); VS (str_of_hex h)
+    | SPrim (PInt _) -> ignore (eat "I("); let h = until ")" in ignore (eat ")");
+      let neg = String.length h > 0 && h.[0] = '-' in
+      let digits = if neg then String.sub h 1 (String.length h - 1) else h in
+      let v = String.fold_left (fun acc c -> Z.add (Z.mul acc (z_of_int 10)) (z_of_int (Char.code c - 48))) Z0 digits in
+      VI (if neg then Z.opp v else v)
+    | SPrim (PFloat _) -> ignore (eat "F("); let h = until ")" in ignore (eat ")"); VF (str_of_string h)
+    | SPrim PBool -> ignore (eat "B("); let h = until ")" in ignore (eat ")"); VB (h = "1")
+    | SPrim PTime -> ignore (eat "T("); let h = until ")" in ignore (eat ")"); VT (str_of_string h)
+    | SNullable s' -> if eat "Null" then raise Exit else (ignore (eat "P("); let v = go s' in ignore (eat ")"); VP v)
+    | SArr it ->
+      ignore (eat "[");
+      let rec elems acc = if has "]" then List.rev acc else (let v = go it in ignore (eat ","); elems (v :: acc)) in
+      let l = elems [] in ignore (eat "]"); VL l
+    | SRef (_, tgt) -> go tgt in
+  go sc0
+
+let parse_fields (ds : (sch * bool) list) (t : string) (i : int ref) : field list =
+  (* "{f,f,...}" ; bool = required *)
+  let n = String.length t in
+  let has p = !i + String.length p <= n && String.sub t !i (String.length p) = p in
+  let eat p = if has p then (i := !i + String.length p; true) else false in
+  ignore (eat "{");
+  let fs = List.map (fun (sc, req) ->
+      let f =
+        if req then FVal (parse_pval_text sc t i)
+        else if eat "N" then FMaybe None
+        else (ignore (eat "J("); let v = parse_pval_text sc t i in ignore (eat ")"); FMaybe (Some v)) in
+      ignore (eat ","); f) ds in
+  ignore (eat "}"); fs
+
+let parse_parsed (od : opdecl) (t : string) : parsed =
+  let i = ref 0 in
+  let n = String.length t in
+  let eat p = if !i + String.length p <= n && String.sub t !i (String.length p) = p then (i := !i + String.length p; true) else false in
+  ignore (eat "{");
+  let q = if od.od_query <> [] then (let r = parse_fields (List.map (fun d -> (d.d_sch, d.d_required)) od.od_query) t i in ignore (eat ","); r) else [] in
+  let vars = List.filter_map (fun (_, o) -> match o with Some sc -> Some (sc, true) | None -> None) od.od_path in
+  let p = if vars <> [] then (let r = parse_fields vars t i in ignore (eat ","); r) else [] in
+  let h = if od.od_header <> [] then (let r = parse_fields (List.map (fun d -> (d.d_sch, d.d_required)) od.od_header) t i in ignore (eat ","); r) else [] in
+  { pq = q; ph = h; pp = p }
+
+let k_line args =
+  let go pkg key v (body : (string * string) option) =
+    let s = (try Hashtbl.find specs pkg with Not_found -> failwith ("no spec " ^ pkg)) in
+    let od = (try Hashtbl.find opdecls (pkg ^ " " ^ key) with Not_found -> failwith ("no opdecl " ^ key)) in
+    let m = String.sub key 0 (String.index key ':') in
+    match (try Some (parse_parsed od v) with Exit -> None) with
+    | None -> "model=Unexpressible(null-parameter) spec=" ^ v
+    | Some sent ->
+    (* the body: json.Marshal on the client, json.Decode on the server (Model/Json.v enc, dec); a non-JSON body is passed through *)
+    let with_body (params : string) : string =
+      match body with
+      | None -> params
+      | Some (bt, bv) ->
+        let inner = String.sub params 1 (String.length params - 2) in
+        let b =
+          if bt = "raw" then bv
+          else
+            let js = Hashtbl.find jtypes (pkg ^ " " ^ bt) in
+            (match json_enc fmt_float_o fmt_time_o js (parse_gval js bv) with
+             | Ok j -> (match json_dec parse_num_o parse_time_oracle js j with
+                 | Ok v' -> dump_gval js v'
+                 | Err k -> "Err(" ^ hex_of_str k ^ ")"
+                 | ErrOther -> "ErrOther")
+             | _ -> "MarshalErr") in
+        "{" ^ (if inner = "" then "" else inner ^ ",") ^ b ^ "}" in
+    (match client_request fmt_float_client fmt_time_o (gen_base s) (str_of_string m) od sent with
+     | None -> "model=Unexpressible spec=" ^ v
+     | Some rq ->
+       let got = (match parse_request parse_float_oracle parse_time_oracle (gen_base s) od rq with
+           | Ok p -> with_body (dump_parsed od p)
+           | Err n -> "Err(" ^ hex_of_str n ^ ")"
+           | ErrOther -> "ErrOther") in
+       let sentv = (match body with None -> v | Some (_, bv) ->
+           let inner = String.sub v 1 (String.length v - 2) in
+           "{" ^ (if inner = "" then "" else inner ^ ",") ^ bv ^ "}") in
+       "model=" ^ got ^ " spec=" ^ sentv ^ " path=" ^ hex_of_str rq.q_path) in
+  match args with
+  | [pkg; key; v] -> go pkg key v None
+  | [pkg; key; v; bt; bv] -> go pkg key v (Some (bt, bv))
+  | _ -> fail_line "K args"
+
 let dispatch line =
   match List.filter (fun t -> t = "" || t.[0] <> '#') (String.split_on_char ' ' line) with
   | "C19" :: args -> c19 args
@@ -741,6 +841,7 @@ let dispatch line =
   | "J" :: args -> j_line args
   | "E" :: args -> e_line args
   | "U" :: args -> u_line args
+  | "K" :: args -> k_line args
   | "R" :: args -> r_line args
   | _ -> fail_line ("unknown case: " ^ line)
 
